@@ -68,11 +68,11 @@ class K:
     {deco}
     def m(self, {sig[6:] if sig.startswith("self, ") else ""}):
         self.n += 1
-        return {{'m': 1, 'args': {body}}}
+        return {{'m': 1, 'args': {body}, 'exec': self.n}}
     {deco}
     def m2(self, {sig[6:] if sig.startswith("self, ") else ""}):
         self.n2 += 1
-        return {{'m': 2, 'args': {body}}}
+        return {{'m': 2, 'args': {body}, 'exec': self.n2}}
 '''
     ns = {'cached': cached, '_explicit': explicit}
     exec(src, ns)
@@ -167,8 +167,8 @@ def _check_shape(args):
         key = canon(b, ignore)
         sp = spellings(shape, b, all_orders=(tier != 'quick'))
         if key not in first_value:
-            first_value[key] = {'m': 1, 'args': dict(b)}
             execs += 1
+            first_value[key] = {'m': 1, 'args': dict(b), 'exec': execs}   # every execution returns something new: a stale entry is visible
         expected = first_value[key]
         for a, kw in sp:
             res.add('evaluations')
@@ -232,6 +232,39 @@ def _check_methods_versions(tier):
             res.add('evaluations', 6)
             if calls != [None, '1', '2'] or [o_['ver'] for o_ in outs] != [None, '1', '2', None, '1', '2']:
                 res.violations.append(Violation('cached: versions of a method share entries', f'{cache_kind}: executions {calls}, results {outs}', {'kind': 'versions', 'cache': cache_kind}))
+        # ONE decorator object applied to two methods with different signatures (e.g. `versioned = cached(version='2')`)
+        for first in ('scale', 'shift'):
+            deco = cached(version='2')
+            ex = []
+
+            class W:
+                def __init__(self, cache):
+                    self.cache = cache
+
+                @deco
+                def scale(self, x, factor=2):
+                    ex.append('scale')
+                    return ['scale', x, factor]
+
+                @deco
+                def shift(self, x, offset=0, factor=10):
+                    ex.append('shift')
+                    return ['shift', x, offset, factor]
+            wobj = W(_make_cache(cache_kind, None))
+            res.add('evaluations', 9)
+            try:
+                if first == 'scale':
+                    r0 = [wobj.scale(3), wobj.scale(3, 2), wobj.scale(x=3, factor=2)]
+                r1 = [wobj.shift(3), wobj.shift(3, 0), wobj.shift(3, 0, 10), wobj.shift(3, factor=10), wobj.shift(factor=10, offset=0, x=3)]
+                r2 = wobj.shift(3, 5)
+                if first == 'shift':
+                    r0 = [wobj.scale(3), wobj.scale(3, 2), wobj.scale(x=3, factor=2)]
+                ok = r0 == [['scale', 3, 2]] * 3 and r1 == [['shift', 3, 0, 10]] * 5 and r2 == ['shift', 3, 5, 10] and sorted(ex) == ['scale', 'shift', 'shift']
+                detail = f'scale -> {r0}, shift -> {r1}, shift(3, 5) -> {r2}, executions {ex}'
+            except Exception as e:  # noqa
+                ok, detail = False, f'{type(e).__name__}: {e}'
+            if not ok:
+                res.violations.append(Violation('cached: one decorator object on two methods mixes up their signatures', f'{cache_kind}, `{first}` called first: {detail}', {'kind': 'versions', 'cache': cache_kind}))
     return res
 
 
@@ -244,11 +277,12 @@ def _check_histories(args):
     tcv.quiet_library()
     from taskchain.cache import NO_VALUE
 
-    cache_kind, explicit, depth = args
+    cache_kind, explicit, depth = args[:3]
+    nb = args[3] if len(args) > 3 else 2
     res = Result()
     from taskchain.cache import InMemoryCache
     b_list = [{'a': 0, 'c': 1}, {'a': 0, 'c': None}]
-    alphabet = [(op, bi) for op in OPS for bi in range(2)]
+    alphabet = [(op, bi) for op in OPS for bi in range(nb)]
     outcomes = set()
     for hist in itertools.chain.from_iterable(itertools.product(alphabet, repeat=d) for d in range(1, depth + 1)):
         exp_cache = _make_cache(cache_kind, None) if explicit else None
@@ -264,13 +298,13 @@ def _check_histories(args):
             kw = dict(b)
             if op == 'plain':
                 if key not in model:
-                    model[key] = {'m': 1, 'args': dict(b)}
                     execs += 1
+                    model[key] = {'m': 1, 'args': dict(b), 'exec': execs}
                 want = model[key]
             elif op == 'force':
                 kw['force_cache'] = True
-                model[key] = {'m': 1, 'args': dict(b)}
                 execs += 1
+                model[key] = {'m': 1, 'args': dict(b), 'exec': execs}
                 want = model[key]
             elif op == 'only':
                 kw['only_cache'] = True
@@ -320,7 +354,8 @@ def run(tier, seed):
     res.coverage['shape_jobs'] = len(jobs)
     res.merge(_check_methods_versions(tier))
     depth = 3 if tier == 'quick' else 4
-    for r in pmap(_check_histories, [('memory', False, depth), ('memory', True, depth), ('json', False, min(depth, 3)), ('json', True, 2)]):
+    for r in pmap(_check_histories, [('memory', False, depth), ('memory', True, depth), ('json', False, min(depth, 3)), ('json', True, min(depth, 3)),
+                                           ('json', True, 4, 1), ('json', False, 4, 1), ('memory', True, 5, 1)]):   # the last three: one binding, longer (create, read, force, read)
         res.merge(r)
     res.coverage['traces_validated_against_impl'] = res.coverage['evaluations']
     res.coverage['exhaustive'] = True
@@ -338,7 +373,7 @@ def replay(case):
 
     tcv.quiet_library()
     if case.get('kind') == 'hist':
-        r = _check_histories((case['cache'], case['explicit'], len(case['hist'])))
+        r = _check_histories((case['cache'], case['explicit'], len(case['hist']), 2))
         return [v for v in r.violations if v.case['hist'] == case['hist']]
     if case.get('kind') in ('methods', 'versions'):
         return _check_methods_versions('quick').violations
